@@ -301,6 +301,34 @@ pub fn run(ctx: &mut Ctx, o: &AttackOpts) {
                 m2.jwt = t;
                 go(ctx, &m2, false);
             }
+            // JSON form only: the separator of the OTHER format smuggled into envelope members (a parser that re-joins the
+            // members with '~' would take "sig~disclosure" apart again) - the signature member followed by a disclosure that
+            // is withheld from the list, and two disclosures glued into one entry
+            {
+                let withheld: Vec<&String> = full.discs.iter().filter(|d| !m.discs.contains(d)).collect();
+                let mut variants: Vec<Msg> = vec![];
+                for d in withheld.iter().take(2).chain(m.discs.iter().take(1).collect::<Vec<_>>().iter()) {
+                    let mut m2 = m.clone();
+                    m2.kb = None;
+                    m2.discs.retain(|x| x != *d);
+                    m2.jwt = format!("{}~{}", m.jwt, d);
+                    variants.push(m2);
+                }
+                if full.discs.len() >= 2 {
+                    let mut m3 = m.clone();
+                    m3.kb = None;
+                    m3.discs = vec![format!("{}~{}", full.discs[0], full.discs[1])];
+                    variants.push(m3);
+                    let mut m4 = m.clone();
+                    m4.kb = None;
+                    m4.discs.push(format!("~{}", full.discs[full.discs.len() - 1]));
+                    variants.push(m4);
+                }
+                for v in variants {
+                    let raw = msg::render(&v, Fmt::Json, JsonVariant::KbAbsent);
+                    verify(ctx, &VerifyArgs { raw: &raw, fmt: Fmt::Json, res: &res, aud: None, nonce: None, pair: 0, expect: NONE.to_string() });
+                }
+            }
             // a resolver that chooses the key by the protected header's kid: the same payload signed (by the adversary, who
             // holds both keys here) under either key, naming either kid, an unknown kid or none
             {
